@@ -11,6 +11,11 @@ exception (family `fault`) or `os._exit` in a forked child followed by reopening
 `kill`).  Family `roundtrip` exports a store and imports the file into an empty one - in this process, or (dimension
 `env`) in a child interpreter started under another locale (`sim/store_child.py`).
 
+Family `sqlerr` is `fault` with faults that look like SQLite's own errors (`SQL_ERRORS`: "database is locked", "disk I/O error",
+"database or disk is full", "UNIQUE constraint failed", ... with type, message and error code as sqlite3 sets them), raised once:
+code that recognises such an error and deals with it (waits and repeats the statement, rolls back, carries on) must still leave
+the store as before or as after.  The `session` family draws its injected errors from the same table.
+
 Family `session` runs HISTORIES of 2..6 operations through one long-lived store object (some failing: defective import
 file, raising callback, injected SQL error), reading the table after every step both from the file and through the object;
 family `bulk` runs stores / import files of thousands of hosts (transactions of several megabytes) with the process killed
@@ -735,7 +740,7 @@ class SqlErr(TxnFamily):
     Imports of several entries (many writing statements in one transaction) in both modes make up most of the cases."""
     name = "sqlerr"
     mode = "raise"
-    quick_n = 360
+    quick_n = 240
     thorough_n = 8000
 
     def gen(self, rng, n):
